@@ -342,6 +342,9 @@ func (l *LightClientAttackEvidence) ValidateBasic() error {
 	}
 
 	// this check needs to be done before we can run validate basic
+	if l.ConflictingBlock.SignedHeader == nil {
+		return errors.New("conflicting block missing signed header")
+	}
 	if l.ConflictingBlock.Header == nil {
 		return errors.New("conflicting block missing header")
 	}
